@@ -20,7 +20,7 @@ fn g(s: &Stats, k: &str) -> u64 {
 
 pub fn spec(id: &str) -> Spec {
     let mut p = Profile::general();
-    let (quick, thorough): (u64, u64) = (4000, 150_000);
+    let (quick, thorough): (u64, u64) = (40_000, 600_000);
     match id {
         "C02" => {
             p.name = "election";
@@ -97,7 +97,7 @@ pub fn spec(id: &str) -> Spec {
             p.name = "liveness";
             p.stabilise_pm = 1000;
             p.run_len = (200, 1500);
-            Spec { profile: p, quick_runs: 1500, thorough_runs: 40_000,
+            Spec { profile: p, quick_runs: 15_000, thorough_runs: 250_000,
                 nontrivial: |s, f| g(s, "chk.C10.converges") >= 1 && (g(f, "crash") + g(f, "crash_losing_unfsynced_writes") + g(f, "partition") + g(f, "message_loss")) >= 1,
                 rule: "fair suffix evaluated after a prefix with >= 1 crash, partition or message loss" }
         }
@@ -165,7 +165,7 @@ pub fn spec(id: &str) -> Spec {
             p.single_voter_pm = 0;
             p.lockstep = true;
             p.run_len = (300, 900);
-            Spec { profile: p, quick_runs: 2500, thorough_runs: 80_000,
+            Spec { profile: p, quick_runs: 25_000, thorough_runs: 400_000,
                 nontrivial: |s, _| g(s, "lockstep_rounds") >= 20 && g(s, "chk.C16.stable_majority_undisturbed") >= 50,
                 rule: "lock-step phase established and >= 20 lock-step rounds ran against an adversarial minority" }
         }
